@@ -104,3 +104,59 @@ func ParseWire(data []byte) (*errorspb.EncodedError, error) {
 	}
 	return &enc, nil
 }
+
+// RenameSuffix is appended to family names to make a type unknown to a
+// receiver without touching its registries (the hook-free simulation of an
+// unknowing process).
+const RenameSuffix = "#u"
+
+// RenameFamilies rewrites family names on the wire: with add set, every
+// family for which unknown() holds gets RenameSuffix appended (recursively
+// through nested EncodedError payloads); without, the suffix is removed
+// again. Explicit marks inside MarkPayload are data, not type keys, and are
+// left alone.
+func RenameFamilies(data []byte, unknown func(string) bool, add bool) ([]byte, error) {
+	enc, err := ParseWire(data)
+	if err != nil {
+		return nil, err
+	}
+	renameTree(enc, unknown, add)
+	return enc.Marshal()
+}
+
+func renameTree(e *errorspb.EncodedError, unknown func(string) bool, add bool) {
+	var d *errorspb.EncodedErrorDetails
+	switch {
+	case e.GetWrapper() != nil:
+		w := e.GetWrapper()
+		d = &w.Details
+		renameTree(&w.Cause, unknown, add)
+	case e.GetLeaf() != nil:
+		l := e.GetLeaf()
+		d = &l.Details
+		for _, c := range l.MultierrorCauses {
+			if c != nil {
+				renameTree(c, unknown, add)
+			}
+		}
+	default:
+		return
+	}
+	fam := d.ErrorTypeMark.FamilyName
+	if add {
+		if unknown(fam) {
+			d.ErrorTypeMark.FamilyName = fam + RenameSuffix
+		}
+	} else {
+		d.ErrorTypeMark.FamilyName = strings.TrimSuffix(fam, RenameSuffix)
+	}
+	if IsEncodedErrorAny(d.FullDetails) {
+		var inner errorspb.EncodedError
+		if err := inner.Unmarshal(d.FullDetails.Value); err == nil {
+			renameTree(&inner, unknown, add)
+			if b, err := inner.Marshal(); err == nil {
+				d.FullDetails = &types.Any{TypeUrl: d.FullDetails.TypeUrl, Value: b}
+			}
+		}
+	}
+}
